@@ -14,6 +14,7 @@ from base64 import (
     b64encode,
 )
 from copy import deepcopy
+from decimal import Decimal
 from datetime import (
     datetime,
     timedelta,
@@ -1661,9 +1662,9 @@ class Message(ABC):
                     )
                 elif sub_cls == timedelta:
                     value = (
-                        [timedelta(seconds=float(item[:-1])) for item in value]
+                        [_Duration.json_to_delta(item) for item in value]
                         if isinstance(value, list)
-                        else timedelta(seconds=float(value[:-1]))
+                        else _Duration.json_to_delta(value)
                     )
                 elif not meta.wraps:
                     value = (
@@ -2076,11 +2077,22 @@ class _Duration(Duration):
 
     @staticmethod
     def delta_to_json(delta: timedelta) -> str:
-        parts = str(delta.total_seconds()).split(".")
-        if len(parts) > 1:
-            while len(parts[1]) not in (3, 6, 9):
-                parts[1] = f"{parts[1]}0"
-        return f"{'.'.join(parts)}s"
+        # integer arithmetic: str(float) loses microseconds beyond 2**53 us and
+        # switches to scientific notation for tiny values ("1e-06s")
+        total_us = delta // timedelta(microseconds=1)
+        seconds, us = divmod(abs(total_us), 10**6)
+        sign = "-" if total_us < 0 else ""
+        if us % 1000 == 0:
+            # 3 fractional digits (also for whole seconds, as before: "1.000s")
+            return f"{sign}{seconds}.{us // 1000:03d}s"
+        return f"{sign}{seconds}.{us:06d}s"
+
+    @staticmethod
+    def json_to_delta(value: str) -> timedelta:
+        """Parses the JSON form ("1.5s") exactly, without going through float."""
+        return timedelta(
+            microseconds=int((Decimal(value[:-1]) * 10**6).to_integral_value())
+        )
 
 
 class _Timestamp(Timestamp):
